@@ -64,6 +64,25 @@ class Campaign:
     post: Optional[Callable] = None  # (out, seed, shard) -> None, runs in the worker after the campaign (e.g. confirm timeouts)
 
 
+def guarded(fn, case):
+    """evaluate(case); an exception that escapes from the tree under test (innermost frames inside scriptplan) while a
+    check drives its API directly is a finding about that code, not a harness error."""
+    try:
+        return fn(case)
+    except Exception as e:  # noqa: BLE001
+        import traceback
+
+        tb = traceback.extract_tb(e.__traceback__)
+        if not tb or "/scriptplan/" not in tb[-1].filename.replace("\\", "/"):
+            raise
+        from . import observe
+
+        r = Result(key="exception " + repr(case)[:300])
+        r.violations = [Violation("unexpected_exception", observe.bucket_of(e), f"{type(e).__name__}: {str(e)[:200]}", {"bucket": observe.bucket_of(e)})]
+        r.nontrivial = True
+        return r
+
+
 @dataclass
 class ShardOut:
     evaluations: int = 0
@@ -142,7 +161,7 @@ def _run_shard(args):
                 camp.post(out, seed, shard)
         elif camp.kind == "enum":
             for case in camp.items(shard, nshards):
-                r = camp.evaluate(case)
+                r = guarded(camp.evaluate, case)
                 out.record(r)
                 unknown, known = _split(r.violations, prop, case)
                 for k in known:
@@ -180,7 +199,7 @@ def _run_hyp(prop, camp, seed, shard, nshards, out: ShardOut):
     )
     @given(camp.strategy())
     def test(case):
-        r = camp.evaluate(case)
+        r = guarded(camp.evaluate, case)
         out.record(r)
         unknown, known = _split(r.violations, prop, case)
         for k in set(known):
@@ -338,7 +357,7 @@ def replay(prop: str, path: str) -> int:
     camp = camps.get(v.get("campaign")) or next(iter(camps.values()))
     case = S.loads(v["case_b64"])
     ev = getattr(mod, "replay_evaluate", None) or camp.evaluate
-    r = ev(case) if ev is not camp.evaluate else camp.evaluate(case)
+    r = guarded(ev, case)
     unknown, known = _split(r.violations, prop, case)
     for k in set(known):
         print(f"KNOWN-FINDING: property={prop} {findings.describe(k)}")
